@@ -1,4 +1,5 @@
 import RedoModel.Lemmas.Deps
+import RedoModel.Lemmas.DepsOwned
 /-!
 # C11 — redo never overwrites or deletes files it did not produce
 Property theorems only.  Model: `RedoModel/Deps.lean`.
@@ -57,5 +58,26 @@ theorem record_writes_only_target (cx : Ctx) (t : Nat) (sf : Rec) (rv : Status) 
   split
   · cases out <;> simp [setRec, setFile, zapDeps2, newNode, hf]
   · simp [setRec, zapDeps2]
+
+/-! ### Whole commands and whole histories -/
+
+/-- **No redo command ever modifies or removes a file it does not own.**  A file is the user's
+(`UserOwned`) when it exists and is not recorded as generated, or is marked overridden, or is
+recorded as generated but differs in mtime/size from what redo recorded (edited or replaced by
+hand).  For every command (`redo`, `redo-ifchange`, with or without `-k`, `redo-ood`, `redo-targets`,
+`redo-sources`), every world and every defect setting, such a file has byte-for-byte the same node
+afterwards and is still the user's — even when a .do rule matches its name, at any depth of nested
+`redo-ifchange` calls, including the out-of-band rebuild path. -/
+theorem command_never_touches_user_files (d : Defects) (n : Nat) (c : Cmd) (w : World) (f : Nat)
+    (h : UserOwned w f) :
+    (runCmd d n c w).2.fs f = w.fs f ∧ UserOwned (runCmd d n c w).2 f :=
+  runCmd_keepsUser d n c w f h
+
+/-- … and so for every sequence of commands (killed ones included) run between two actions of the
+user: the override is sticky until the user removes the file. -/
+theorem history_never_touches_user_files (d : Defects) (n : Nat) (ops : List UserOp)
+    (hops : ∀ op ∈ ops, op.isCommand = true) (w : World) (f : Nat) (h : UserOwned w f) :
+    (runOps d n ops w).fs f = w.fs f ∧ UserOwned (runOps d n ops w) f :=
+  history_keepsUser d n ops hops w f h
 
 end C11
